@@ -171,7 +171,7 @@ class ReservedCfdpMessage(AbstractTlvBase):
         source_id_len = ((self.value[5] >> 4) & 0b111) + 1
         seq_num_len = (self.value[5] & 0b111) + 1
         current_idx = 6
-        if len(self.value) < source_id_len + seq_num_len + 1:
+        if len(self.value) < current_idx + source_id_len + seq_num_len:
             raise ValueError("originating transaction ID value field to small")
         source_id = self.value[current_idx : current_idx + source_id_len]
         current_idx += source_id_len
